@@ -491,6 +491,10 @@ func runWirePart(c *Ctx, work string, sp *WireSpec) (Coverage, int, error) {
 				}
 			}
 		}
+		if sp.Op == "codec" && sp.JudgeProp == "C01" {
+			// payloads beyond buffer sizes through every decoder: the first value of every schema and a seed-rotating sixteenth of the rest
+			j["bigpayload"] = cs.Vi <= 1 || (cs.Sid+cs.Vi+c.Seed)%16 == 0
+		}
 		if sp.Op == "stream" {
 			j["seq"] = cs.Seq
 			j["seqenc"] = cs.SeqEnc
